@@ -14,7 +14,7 @@ import time
 import z3
 
 from .values import (
-    BoundMethod, BuiltinVal, ClassVal, Closure, EnumVal, ExcVal, FuncVal, HDict, HInst, HList, HSymMap, HexStr,
+    BoundMethod, BuiltinVal, ClassVal, Closure, EnumVal, ExcVal, FuncVal, HAbstract, HDict, HInst, HList, HSymList, HSymMap, HexStr, SymEnum,
     ModuleVal, Opaque, Ref, Rope, SuperVal, SymBytes, SymSeq, Unsupported, is_intlike, is_sym, is_symbool, is_symint,
     to_z3bool, to_z3int,
 )
@@ -78,9 +78,10 @@ class State:
 
 
 class Frame:
-    __slots__ = ("module", "cls", "name", "node", "subst")
+    __slots__ = ("module", "cls", "name", "node", "subst", "parent")
 
-    def __init__(self, module, cls, name, node=None, subst=False):
+    def __init__(self, module, cls, name, node=None, subst=False, parent=None):
+        self.parent = parent
         self.module = module
         self.cls = cls
         self.name = name
@@ -240,13 +241,15 @@ class Interp:
             o = self.hget(st, v)
             if isinstance(o, HList):
                 return len(o.items) > 0
+            if isinstance(o, HSymList):
+                return o.total() > 0
             if isinstance(o, HDict):
                 return len(o.items) > 0
             if isinstance(o, HInst):
                 if self.index.find_method(o.cls, "__bool__") or self.index.find_method(o.cls, "__len__"):
                     raise Unsupported("truthiness through __bool__/__len__")
                 return True
-        if isinstance(v, (ClassVal, FuncVal, Closure, BoundMethod, EnumVal, ModuleVal, BuiltinVal)):
+        if isinstance(v, (ClassVal, FuncVal, Closure, BoundMethod, EnumVal, SymEnum, ModuleVal, BuiltinVal)):
             return True
         if isinstance(v, ExcVal):
             return True
@@ -316,7 +319,7 @@ class Interp:
             o = self.hget(st, v)
             if isinstance(o, HInst):
                 return o.cls
-            return {"list": "list", "dict": "dict", "symmap": "dict"}[o.kind]
+            return {"list": "list", "dict": "dict", "symmap": "dict", "symlist": "list", "abstract": "dict"}[o.kind]
         if isinstance(v, ExcVal):
             return v.cls
         if isinstance(v, bool) or is_symbool(v):
@@ -932,6 +935,14 @@ class Interp:
             return None, self.mkexc("TypeError", f"unexpected keyword arguments {sorted(kwargs)}")
         return env, None
 
+    def on_stack(self, st, qualname):
+        fr = st.frame
+        while fr is not None:
+            if fr.name == qualname and not fr.subst:
+                return True
+            fr = fr.parent
+        return False
+
     def const_default(self, d, module, st):
         if isinstance(d, ast.Constant):
             return d.value
@@ -957,7 +968,9 @@ class Interp:
         if qualname in self.overrides:
             target = self.overrides[qualname]
             self.used_overrides.add(qualname)
-        elif qualname in self.contracts and qualname not in self.no_contract_for:
+        elif qualname in self.contracts and (qualname not in self.no_contract_for or self.on_stack(st, qualname)):
+            # modular call; for the function under verification itself only the outermost activation runs the body:
+            # a recursive call is checked against the function's own contract
             target = self.contracts[qualname]
             self.used_contracts.add(qualname)
         if target is not None:
@@ -986,7 +999,7 @@ class Interp:
             e2.update(env)
             env = e2
         st.env = env
-        st.frame = Frame(module, cls, qualname, fn, subst or bool(saved_frame is not None and saved_frame.subst))
+        st.frame = Frame(module, cls, qualname, fn, subst or bool(saved_frame is not None and saved_frame.subst), parent=saved_frame)
         st.depth += 1
         try:
             res = self.exec_block(body, st)
